@@ -24,6 +24,7 @@ import logging
 import os
 import pickle
 import re
+import selectors
 import shutil
 import socket
 import tempfile
@@ -164,6 +165,53 @@ async def settle():
     raise RuntimeError("the event loop does not become quiescent")
 
 
+class _JumpSelector(selectors.DefaultSelector):
+    """Instead of sleeping until the next timer is due, advance the virtual clock of the loop."""
+
+    loop = None
+    idle = 0
+
+    def select(self, timeout=None):
+        events = super().select(0)
+        if events or timeout == 0:
+            return events
+        if timeout is None:  # no timer, nothing ready: only another thread could wake this loop
+            self.idle += 1
+            if self.idle > 200:
+                raise RuntimeError("virtual loop: nothing left that could ever happen")
+            return super().select(0.01)
+        self.loop.vnow += timeout
+        return events
+
+
+class VirtualLoop(asyncio.SelectorEventLoop):
+    """An event loop on a virtual clock: `asyncio.sleep(3600)` returns at once, after every timer due
+    within that hour has fired in order.  No real time passes."""
+
+    def __init__(self):
+        self.vnow = 1000.0
+        sel = _JumpSelector()
+        super().__init__(selector=sel)
+        sel.loop = self
+
+    def time(self):
+        return self.vnow
+
+
+def run_virtual(make_coro):
+    """Run a coroutine to completion on a fresh `VirtualLoop` (call this from a worker thread)."""
+    loop = VirtualLoop()
+    try:
+        return loop.run_until_complete(make_coro())
+    finally:
+        with contextlib.suppress(Exception):
+            loop.run_until_complete(loop.shutdown_asyncgens())
+        loop.close()
+
+
+HOUR = 3600.0
+
+
 def parse_frames(data: bytes):
     """Reference framing parser of the harness: [(id, body|None)], leftover bytes."""
     out, i = [], 0
@@ -254,6 +302,9 @@ class Handler:
         self.futs = {}
         self.cancelled = []
         self.inside = set()  # tags whose future the harness cancels: a CancelledError from inside
+        self.applied = []  # tags whose handler got past its wait: the side effect of the request
+        self.lock = asyncio.Lock()  # `work_lock` waits for it, like a request waits for the database session
+        self.lock_tags = set()
         self.forbidden = []  # names of non-exposed procedures that were entered
 
     async def _block(self, tag):
@@ -266,9 +317,25 @@ class Handler:
             if tag not in self.inside:
                 self.cancelled.append(tag)
             raise
+        self.applied.append(tag)
         if kind == "raise":
             raise val
         return val
+
+    @allow_rpc
+    async def work_lock(self, tag):
+        """Wait for a lock that the harness holds, then apply."""
+        fut = asyncio.get_running_loop().create_future()  # bookkeeping only: pending until released
+        self.started.append(tag)
+        self.futs[tag] = fut
+        self.lock_tags.add(tag)
+        try:
+            async with self.lock:
+                self.applied.append(tag)
+                return ("value", tag)
+        except asyncio.CancelledError:
+            self.cancelled.append(tag)
+            raise
 
     @allow_rpc
     async def work(self, tag):
@@ -300,7 +367,7 @@ def handler_table(handler) -> list[tuple[str, bool]]:
     return [(n, bool(R.is_rpc_allowed(getattr(handler, n)))) for n in sorted(dir(handler))]
 
 
-ALLOWED = ["work", "work_kw", "work_awaitable"]
+ALLOWED = ["work", "work_kw", "work_awaitable"]  # `work_lock` is only used by the directed family
 REJECTED_NAMES = ["hidden", "plain", "_private", "__secret__", "public_attr", "started", "futs", "__init__",
                   "__class__", "__dict__", "__getattribute__", "_block", "nope", "", "work.__func__", "work ",
                   "Work", "__work__", "work\n", "wörk", "work.work", "handler.work", "__call__"]
@@ -464,6 +531,10 @@ class ConnSim:
             self.conn.stop()
             self.ending = True
             self.events.append("s")
+        elif tok == "t":  # an hour passes (only on the virtual clock)
+            if isinstance(asyncio.get_running_loop(), VirtualLoop):
+                await asyncio.sleep(HOUR)
+            self.events.append("t")
         elif tok == "p":
             self.tr.pause()
             self.events.append("p")
@@ -480,7 +551,12 @@ class ConnSim:
             tag, out = arg
             k = self.invoked.index(tag)
             fut = h.futs[tag]
-            if out in ("r", "R"):
+            if tag in getattr(h, "lock_tags", ()):  # the harness lets go of the lock the handler waits for
+                fut.set_result(None)
+                h.lock.release()
+                self.injected[tag] = ("ok", ("value", tag))
+                out = "r"
+            elif out in ("r", "R"):
                 val = ("value", tag) if out == "r" else ("value", tag, bytes(3 * HIGH_WATER))
                 fut.set_result(("ok", val))
                 self.injected[tag] = ("ok", val)
@@ -1159,6 +1235,13 @@ async def correspond_conn(ctx):
     await run_conn_batch(ctx, r, ctx.budget(1500, 12000), check=check)
     await offset_family(ctx, r, TagSource(), check=check)
     await fault_families(ctx, r, TagSource(), check=check)
+
+    def collect(sims, handler):
+        table = table_token(handler)
+        for sim in sims:
+            pending.append((sim, sim.script_line(table, bodies_token(handler, [bytes(sim.fed)]))))
+
+    await asyncio.wait_for(asyncio.to_thread(run_virtual, lambda: gone_family(lambda *a: None, collect)), 300)
     ans = common.run_driver([line for _, line in pending])
     for (sim, line), a in zip(pending, ans):
         nontrivial = len(sim.invoked) > 0 or len(sim.replies) > 0
@@ -1722,6 +1805,119 @@ async def replay_unknown_reply_id() -> dict:
     return {"call": out, "close": closed, "reproduced": out == "exc:ConnectionResetError" and closed == "RPCError"}
 
 
+# ---------------------------------------------------------------------------------------------
+# "Requester gone, handler still busy": shared with C15 (received in full is applied in full)
+# ---------------------------------------------------------------------------------------------
+
+GONE_WAYS = ["eof", "reset", "close", "close+eof", "vanish", "midframe", "stop"]
+GONE_POINTS = ["after-start", "after-other-reply", "writer-blocked"]
+GONE_WAITS = ["future", "lock"]
+
+
+async def gone_case(how: str, point: str, wait: str):
+    """One scenario on the virtual clock.  Connection A has a busy call (id 1, waits on a future or
+    on a lock) and another call (id 2); connection B, served for the same handler, has one call in
+    flight.  After the requests arrived in full the peer of A goes away (`how`) at `point`, an hour
+    passes, then the handlers are released.  Returns (problems, sims, handler)."""
+    handler = Handler()
+    if wait == "lock":
+        await asyncio.wait_for(handler.lock.acquire(), TIMEOUT)
+    a, b = ConnSim(handler, 0), ConnSim(handler, 1)
+    for sim in (a, b):
+        sim.frames, sim.hung = [], False
+    a.tags = {1: 1, 2: 2, 3: 3}
+    b.tags = {10: 1}
+    busy = "work_lock" if wait == "lock" else "work"
+    req = [R._encode_message(1, R._encode_body(RPCCall(busy, (1,), {}))),
+           R._encode_message(2, R._encode_body(RPCCall("work", (2,), {}))),
+           R._encode_message(3, R._encode_body(RPCCall("work", (3,), {})))]
+    await asyncio.wait_for(settle(), TIMEOUT)
+    await a.apply("b", req[0] + req[1])
+    await b.apply("b", R._encode_message(1, R._encode_body(RPCCall("work", (10,), {}))))
+    if point == "after-other-reply":
+        await a.apply("c", (2, "r"))
+    elif point == "writer-blocked":
+        await a.apply("p")
+        await a.apply("c", (2, "r"))
+    # the requester goes away
+    if how == "eof":  # half-close: the peer shut down its sending side
+        await a.apply("e")
+    elif how == "reset":
+        await a.apply("x")
+    elif how == "close":
+        await a.apply("b", R._encode_message(9, None))
+    elif how == "close+eof":  # what `SocketAsyncRPCClient.close()` does
+        await a.apply("b", R._encode_message(9, None))
+        await a.apply("e")
+    elif how == "vanish":
+        await a.apply("e")
+        await a.apply("l", ("reset", "d"))
+    elif how == "midframe":  # dies while sending a later request
+        await a.apply("b", req[2][:len(req[2]) // 2])
+        await a.apply("e")
+    elif how == "stop":
+        await a.apply("s")
+    await a.apply("t")
+    cancelled_early = [t for t in handler.cancelled if t in a.tags]
+    if a.paused and not a.task.done():
+        await a.apply("d")
+    for tag in (1, 2):
+        await complete_if_pending(a, (tag, "r"))
+    await complete_if_pending(b, (10, "r"))
+    if wait == "lock" and handler.lock.locked() and 1 not in handler.applied and 1 in handler.cancelled:
+        handler.lock.release()
+    await finish_all(common.rng("gone"), [a, b])
+    problems = []
+    where = {"how": how, "point": point, "handler_waits_on": wait}
+    for tag in (1, 2):
+        if tag in handler.cancelled or handler.applied.count(tag) != 1:
+            when = "within the hour after the peer went away" if tag in cancelled_early else "at teardown"
+            problems.append((f"handler-cancelled-after-peer-gone:{how}",
+                             f"the request with call id {a.tags[tag]} had arrived in full; after the requester went away "
+                             f"({how}, {point}) its handler was cancelled {when} instead of running to completion "
+                             f"(applied {handler.applied.count(tag)} times)", where))
+    if [(c, k) for c, k, _p in b.replies] != [(1, "v")] or 10 in handler.cancelled or handler.applied.count(10) != 1:
+        problems.append((f"other-connection-disturbed:{how}", "a call on another connection of the same handler was not "
+                         f"answered exactly once: {[(c, k) for c, k, _p in b.replies]}", where))
+    for sim, name in ((a, "the connection of the vanished peer"), (b, "the other connection")):
+        if sim.hung or serve_status(sim.task) != "done":
+            problems.append((f"serve-unexpected-end:{how}", f"serve() of {name} "
+                             f"{'did not end' if sim.hung else 'ended with ' + serve_status(sim.task)}", where))
+    ids = [c for c, _k, _p in a.replies]
+    if len(ids) != len(set(ids)) or any(c not in (1, 2) for c in ids):
+        problems.append(("duplicate-reply", f"replies {ids} for the calls 1 and 2", where))
+    return problems, [a, b], handler
+
+
+async def gone_family(report, collect=None):
+    for how in GONE_WAYS:
+        for point in GONE_POINTS:
+            for wait in GONE_WAITS:
+                problems, sims, handler = await gone_case(how, point, wait)
+                for sig, what, where in problems:
+                    report(sig, what, {**where, "gone_case": [how, point, wait],
+                                       "events": {f"connection {sim.cid}": [e[:50] for e in sim.events] for sim in sims}})
+                if collect is not None:
+                    collect(sims, handler)
+    return len(GONE_WAYS) * len(GONE_POINTS) * len(GONE_WAITS)
+
+
+async def applied_after_disconnect(ctx, pid: str, collect=None) -> int:
+    """Shared oracle (C16, C15): a request that was received in full is applied in full, exactly once,
+    however and whenever its requester goes away afterwards and however long the handler still waits; other
+    connections are not disturbed.  Real `RPCServerConnection`s on in-memory streams, on a virtual clock (one
+    hour passes between the disconnect and the release of the handler; no real sleeps).  Findings are reported
+    under `pid` with signatures `handler-cancelled-after-peer-gone:<how>` etc."""
+    def report(sig, what, detail):
+        ctx.finding(Finding(pid, sig, what, detail))
+
+    n = await asyncio.wait_for(asyncio.to_thread(run_virtual, lambda: gone_family(report, collect)), 300)
+    for i in range(n):
+        ctx.stats.case(("requester-gone", i))
+    ctx.stats.count("requester-gone.cases", n)
+    return n
+
+
 async def search(ctx):
     r = ctx.rng("oracle")
     counts = {"connections": 0}
@@ -1735,6 +1931,7 @@ async def search(ctx):
     await run_conn_batch(ctx, r, ctx.budget(1200, 10000), check=check)
     await offset_family(ctx, r, TagSource(), check=check)
     await fault_families(ctx, r, TagSource(), check=check)
+    await applied_after_disconnect(ctx, PID)
     with debug_env(False):
         await oracle_director_names(ctx)
         await oracle_real_socket(ctx)
@@ -1781,6 +1978,15 @@ async def replay(ctx, detail):
     script = detail.get("detail", {}).get("replay")
     if script:
         return await replay_script(ctx, script, sig)
+    case = detail.get("detail", {}).get("gone_case")
+    if case:
+        problems, sims, handler = await asyncio.wait_for(
+            asyncio.to_thread(run_virtual, lambda: gone_case(*case)), 120)
+        return {"reproduced": any(p[0] == sig for p in problems), "signature": sig,
+                "problems": [[p[0], p[1]] for p in problems],
+                "observed": {"applied": handler.applied, "cancelled_handlers": handler.cancelled,
+                             "serve": [serve_status(sim.task) for sim in sims],
+                             "events": [[e[:50] for e in sim.events] for sim in sims]}}
     if sig == "server_exactly_once_negation":
         return {**(await replay_drop_after_eof()), "signature": sig}
     if sig == "client_pairing_negation":
